@@ -2,7 +2,8 @@ ENTRY = {
     "harness": "c06",
     "driver": "_c06",
     "models": ["Json/CycleModel.v (hand-written model of the encoder's cycle detection: json/codec.go enterCycle/leaveCycle as called by "
-               "encodePointer, encodeSlice, encodeMap, encodeMapStringInterface, encodeInterface in json/encode.go)"],
+               "encodePointer, encodeSlice, encodeMap, encodeMapStringInterface, encodeInterface in json/encode.go)",
+               "Generated/JsonParseGen.v (machine translation of the json/parse.go scanners: the totality theorems valid_total, parse_value_total, tokenizer_total, decoder_total are about it, through Json/StreamModel.v)"],
     "rule": "SUPERVISED execution: the harness command re-executes itself as a worker that runs all cases in-process and records each case "
             "before running it; a worker death (fatal stack overflow, memory fault, out of memory) or a 90 s watchdog timeout is attributed to the recorded "
             "case (impl `fatal <reason>` / `hang`) and the worker restarted after it. Observable of ordinary cases: `nopanic` / `panic <msg>` / `fatal ..` / `hang` "
@@ -41,7 +42,7 @@ CLAIM = {
     "text": "Theorems (Properties/C06.v). Encoder cycle detection, for EVERY finite well-formed heap graph, root and threshold: the traversal terminates within recursion depth (thr + nodes + 1) * (nodes + 2) (cycle_total); "
             "its verdict is exactly `a cycle is reachable from the root` (cycle_decides = cycle_sound + cycle_complete: no false positive on DAGs with sharing, no missed cycle); the mutable ptrSeen map with deferred deletion is restored "
             "on every return (cycle_set_discipline); the depth counter never exceeds thr + tracked objects + 1 (cycle_depth_bound: the stack-safety statement for cyclic values). Acyclic nesting is NOT bounded: a chain of n pointers needs recursion depth "
-            "n + 1 (acyclic_depth_is_nesting_depth, acyclic_depth_bounded_refuted) -- known finding F41. Decode side: json.Valid, parseValue, the Tokenizer and the Decoder return on every byte string / reader script (corollaries of C05, C17, C11). "
+            "n + 1 (acyclic_depth_is_nesting_depth, acyclic_depth_bounded_refuted) -- known finding F41. Decode side: json.Valid, parseValue, the Tokenizer and the Decoder return on every byte string shorter than 2^62 bytes / every reader script over a stream shorter than 2^30 bytes (corollaries of C05, C17, C11). "
             "Absence of panics, memory faults and hangs in the reflection/unsafe layer is decided by supervised out-of-process execution over generated types, values, graphs and documents (every prefix, every single-byte corruption, deep nesting).",
     "note": "Partial at proof level: the theorems cover the cycle-detection algorithm and the scanners; memory safety of the unsafe/reflect layer and the runtime stack limit are observed, not proved. Known findings executed on every run: F41 (unbounded nesting depth -> fatal stack overflow), "
             "F42 (self-referential named types without a struct). Fixed during construction: cycles through slices/maps/interfaces (30cb519), one-element pointer arrays (ef77149), map keys with one-sided text methods (be7bfb4), pointer-shaped TextMarshaler map keys. Trusted: Coq kernel, extraction+driver, harness, encoding/json as oracle.",
